@@ -2,9 +2,10 @@
 The list of op handlers of the driver.  One import and one list entry per component.
 -/
 import Driver.RegistryOps
+import Driver.DispatchOps
 
 namespace Driver
 
-def handlers : List Handler := [registryHandler]
+def handlers : List Handler := [registryHandler, dispatchHandler]
 
 end Driver
